@@ -86,6 +86,32 @@ def lookupGet (e : LookupEntry) : PRes → LookupOut
   | .attrError => .attrError
   | .obj x => if e.iop then .forwardKeepProxy x else .forward x
 
+/-! ### attributes of payload objects
+
+Values stored in a local are references to application objects. The model keeps them opaque, except
+for ONE mutable attribute per object (`obj.val` / an item / an appended element in the harness) so
+that "mutate through a proxy" has a meaning: `fields` maps a value token to the attribute's current
+value (0 until it is written). -/
+
+abbrev Fields := List (Nat × Nat)
+
+def fieldOf (fs : Fields) (x : Nat) : Nat := ((fs.find? fun p => p.1 == x).map (·.2)).getD 0
+
+/-- `proxy.val = f` (`setattr` forwarded by `_ProxyLookup`) in context `c`: re-done on the object the
+proxy resolves to THERE; nothing happens when it is unbound / `get_name` fails (the error propagates) -/
+def mutateVia (attrOf : Nat → Option Nat) (falsy : Nat → Bool) (lw : LWorld) (fs : Fields) (c : Nat)
+    (p : PSrc) (f : Nat) : Fields × PRes :=
+  match resolveP attrOf falsy lw c p with
+  | .obj x => ((x, f) :: fs, .obj x)
+  | r => (fs, r)
+
+/-- `proxy.val` read in context `c` -/
+def readVia (attrOf : Nat → Option Nat) (falsy : Nat → Bool) (lw : LWorld) (fs : Fields) (c : Nat)
+    (p : PSrc) : Option Nat :=
+  match resolveP attrOf falsy lw c p with
+  | .obj x => some (fieldOf fs x)
+  | _ => none
+
 def findEntry (name : String) : Option LookupEntry :=
   Gen.LocalProxyTbl.table.find? fun e => e.name == name
 
